@@ -44,6 +44,9 @@ type Case struct {
 	FailAt int `json:"fail_at"`
 	// Source: the concrete type of the reader the decoders are given (hio.SourceKinds)
 	Source string `json:"source,omitempty"`
+	// EOFWith: the datum is the last thing in the stream (no trailer) and the
+	// reader hands out its last bytes together with io.EOF, as io.Reader allows
+	EOFWith bool `json:"eofwith,omitempty"`
 }
 
 // failAfter accepts n bytes, then fails.
@@ -62,7 +65,7 @@ func (f *failAfter) Write(p []byte) (int, error) {
 func typeOpts() gen.TypeOpts {
 	return gen.TypeOpts{Depth: 3, Width: 4,
 		Leaves:  append(append([]ref.Kind{}, gen.AllScalars...), ref.KValue, ref.KInt8, ref.KUint8, ref.KInt16, ref.KUint16),
-		MapKeys: gen.KeyScalars, Structs: true, Tuples: true, Maps: true, Lists: true, Template: false, ZeroMem: true, CompositeKeys: true}
+		MapKeys: gen.KeyScalars, Structs: true, Tuples: true, Maps: true, Lists: true, Template: false, ZeroMem: true, CompositeKeys: true, Wide: true}
 }
 
 func genCase(t *rapid.T) Case {
@@ -80,6 +83,9 @@ func genCase(t *rapid.T) Case {
 		Source: rapid.SampledFrom(hio.SourceKinds).Draw(t, "source")}
 	if n := len(c.Hex) / 2; n > 0 && rapid.IntRange(0, 3).Draw(t, "failfirst") == 0 {
 		c.FailAt = rapid.IntRange(0, n-1).Draw(t, "failat")
+	}
+	if rapid.IntRange(0, 4).Draw(t, "eofwith") == 0 {
+		c.EOFWith, c.Trailer, c.Source = true, "", "frag"
 	}
 	return c
 }
@@ -184,7 +190,7 @@ func checkCase(c Case) error {
 		return vt.Violationf("C03:parse", "Parse(%q): %v", c.Sig, err)
 	}
 	for _, input := range [][]byte{refBytes, enc} {
-		r, consumed := hio.Source(c.Source, append(append([]byte{}, input...), trailer...), c.Chunks, false)
+		r, consumed := hio.Source(c.Source, append(append([]byte{}, input...), trailer...), c.Chunks, c.EOFWith)
 		got, err := st.Reader().Read(r)
 		if err != nil {
 			return vt.Violationf(classFor(ty, "reader-error"), "Reader(%s).Read of a valid encoding of %s failed: %v", c.Sig, c.Desc, err)
@@ -202,7 +208,7 @@ func checkCase(c Case) error {
 	for i, input := range [][]byte{refBytes, enc} {
 		which := []string{"documented bytes", "encoder output"}[i]
 		ptr := reflect.New(gv.Type())
-		r, consumed := hio.Source(c.Source, append(append([]byte{}, input...), trailer...), c.Chunks, false)
+		r, consumed := hio.Source(c.Source, append(append([]byte{}, input...), trailer...), c.Chunks, c.EOFWith)
 		err, p := safely(func() error { return encoding.NewDecoder(encoding.DefaultCap(), r).Decode(ptr.Interface()) })
 		if p != nil {
 			return vt.Violationf(classFor(ty, "decoder-panic"), "Decode(%s) of %s panicked: %v", c.Sig, which, p)
@@ -222,7 +228,7 @@ func checkCase(c Case) error {
 		}
 		// once more into the destination which now holds the value (a caller
 		// which reuses its variable): the same bytes give the same value
-		r2, consumed2 := hio.Source(c.Source, append(append([]byte{}, input...), trailer...), c.Chunks, false)
+		r2, consumed2 := hio.Source(c.Source, append(append([]byte{}, input...), trailer...), c.Chunks, c.EOFWith)
 		err, p = safely(func() error { return encoding.NewDecoder(encoding.DefaultCap(), r2).Decode(ptr.Interface()) })
 		if p != nil || err != nil {
 			return vt.Violationf(classFor(ty, "decoder-error:used-destination"), "Decode(%s) of %s (%s) into a destination which already holds that value failed: %v %v", c.Sig, which, c.Desc, err, p)
